@@ -112,6 +112,9 @@ def branch_of(exp):
 
 
 # ------------------------------------------------------------------ part A: independent runs, many per session
+_sess_counter = [0]
+
+
 def check_cases(ck, cases, faulty, tag):
     """cases: list of dicts {cfg: {N, retries, warmup, ignore_timeouts}, outcomes: [...]}; all run in ONE
     session as independent runs (distinct executables), batch scheduler."""
@@ -155,9 +158,15 @@ def check_cases(ck, cases, faulty, tag):
                 t = o.get('marker_text') or ''
                 ck.count('marker:%s' % ('line start' if t.startswith(('Error', 'FAILED', 'Segmentation')) else 'inside a line'))
     scn = {'runs': [dict(c['cfg'], exe=i, **c['levels']) for i, c in enumerate(cases)]}
+    # every third session: the runs belong to two experiments that share the data file (experiment `all`)
+    _sess_counter[0] += 1
+    if _sess_counter[0] % 3 == 0 or any(c.get('two_experiments') for c in cases):
+        scn['two_experiments'] = True
+        ck.count('session:runs shared by two experiments with one data file')
     sess = {'sched': 'batch', 'faulty': faulty, 'scripts': [c['outcomes'] for c in cases]}
     wd = _mkwd(ck)
     obs = ds.run_session(wd, scn, sess)
+    obs['two_experiments'] = bool(scn.get('two_experiments'))
     ck.impl_traces += 1
     # the scripted process layer answers starts beyond the script with DEFAULT_FAIL: the model gets the same stream
     ops = [dict({'op': 'c04.trace', 'faulty': faulty,
@@ -188,7 +197,8 @@ def impl_view(obs, i):
 
 def one_case(ck, c, faulty, i, obs, ans, tag):
     cfg = c['cfg']
-    inp = {'kind': 'run', 'cfg': cfg, 'faulty': faulty, 'outcomes': c['outcomes'], 'levels': c.get('levels') or {}}
+    inp = {'kind': 'run', 'cfg': cfg, 'faulty': faulty, 'outcomes': c['outcomes'], 'levels': c.get('levels') or {},
+           'two_experiments': bool(obs.get('two_experiments'))}
     starts, rows, fin = impl_view(obs, i)
     exp = prop_expect(cfg, faulty, c['outcomes'])
     ck.count('stop:' + str(exp['reason']))
@@ -553,7 +563,8 @@ def run_input(ck, inp, tag):
     elif inp.get('kind') == 'runs':
         check_cases(ck, inp['cases'], inp.get('faulty', False), tag)
     else:
-        check_cases(ck, [{'cfg': inp['cfg'], 'outcomes': inp['outcomes'], 'levels': inp.get('levels') or {}}],
+        check_cases(ck, [{'cfg': inp['cfg'], 'outcomes': inp['outcomes'], 'levels': inp.get('levels') or {},
+                          'two_experiments': inp.get('two_experiments')}],
                     inp.get('faulty', False), tag)
 
 
